@@ -4,6 +4,7 @@ from __future__ import annotations
 import glob
 import math
 import os
+import pickle
 import re
 import shutil
 import tempfile
@@ -51,6 +52,7 @@ def replay(chk, kind, cat, rkind, rcat_elems, rows0, hist, tmp, tag):
     obj = sp.GeoDataFrame({"id": np.array(ids, dtype="int64"), "geometry": geom.make_array(kind, els)})
     right = sp.GeoDataFrame({"rid": np.arange(1, len(rcat_elems) + 1), "geometry": geom.make_array(rkind, rcat_elems)})
     form = "pandas"
+    last_path = None
     desc = [f"GeoDataFrame[{kind}] rows {[(i, geom.to_py(kind, e)) for i, e in zip(ids, els)]}"]
     nobs = 0
     for step, h in enumerate(hist):
@@ -63,6 +65,63 @@ def replay(chk, kind, cat, rkind, rcat_elems, rows0, hist, tmp, tag):
                 obj = obj[obj["id"].isin(sorted(a))]
             elif op == "reverse":
                 obj = obj.iloc[::-1]
+            elif op == "sort_desc":
+                obj = obj.sort_values("id", ascending=False)
+            elif op == "concat_rotate":
+                obj = pd.concat([obj.iloc[a:], obj.iloc[:a]])
+            elif op == "copy":
+                obj = obj.copy()
+            elif op == "pickle":
+                obj = pickle.loads(pickle.dumps(obj))
+            elif op == "persist":
+                obj = obj.persist()
+            elif op == "repartition":
+                obj = obj.repartition(npartitions=1)        # (Dask cannot always split further: only merging is replayed)
+            elif op == "cx_select":
+                obj = obj.cx[c04.axis_arg(a[0]), c04.axis_arg(a[1])]
+            elif op == "intersects_bounds":
+                m = obj.geometry.intersects_bounds(tuple(float(v) for v in a))
+                idc = obj["id"]
+                if form != "pandas":
+                    m, idc = m.compute(), idc.compute()
+                got = set(int(i) for i, h in zip(idc, m) if h)
+                nobs += 1
+                if got != set(val):
+                    bad(chk, desc, f"intersects_bounds true for rows {sorted(got)}, the model says {sorted(val)}", op, kind)
+                    return nobs
+            elif op == "sindex_intersects":
+                pos = obj.geometry.array.sindex.intersects(tuple(float(v) for v in a))
+                got = sorted(int(obj["id"].iloc[int(k)]) for k in pos)
+                nobs += 1
+                if got != sorted(val):
+                    bad(chk, desc, f"sindex.intersects returns rows {got}, the model says {sorted(val)}", op, kind)
+                    return nobs
+            elif op == "measure":
+                ar, ln, idc = obj.geometry.area, obj.geometry.length, obj["id"]
+                if form != "pandas":
+                    ar, ln, idc = ar.compute(), ln.compute(), idc.compute()
+                gotm = {int(i): (float(x), float(y)) for i, x, y in zip(idc, ar, ln)}
+                nobs += 1
+                for rid, area2, sqlens in val:
+                    roots = [math.isqrt(q) if math.isqrt(q) ** 2 == q else None for q in sqlens]
+                    wl = float(sum(roots)) if all(r is not None for r in roots) else math.fsum(math.sqrt(q) for q in sqlens)
+                    ga, gl = gotm.get(int(rid), (None, None))
+                    if ga is None or ga != area2 / 2.0 or abs(gl - wl) > 1e-12 * max(1.0, abs(wl)):
+                        bad(chk, desc, f"area / length of row {rid}: {ga} / {gl}, the model says {area2 / 2.0} / {wl}", op, kind)
+                        return nobs
+            elif op == "read_bounds":
+                box = tuple(float(v) for v in a)
+                sub = read_parquet_dask(last_path, bounds=box)
+                got = set(int(i) for i in sub.compute()["id"]) if sub.npartitions else set()
+                allids = set(int(i) for i in obj["id"].compute())
+                nobs += 1
+                if not (set(val) <= got <= allids):
+                    bad(chk, desc, f"read_parquet_dask(bounds={box}) holds rows {sorted(got)}; it must contain the intersecting rows {sorted(val)} and only stored rows {sorted(allids)}", op, kind)
+                    return nobs
+                hit = set(int(i) for i in sub.cx[box[0]:box[2], box[1]:box[3]].compute()["id"]) if got else set()
+                if hit != set(val):
+                    bad(chk, desc, f"read_parquet_dask(bounds={box}).cx[box] selects {sorted(hit)}, the model says {sorted(val)}", op, kind)
+                    return nobs
             elif op == "build_sindex":
                 obj.build_sindex(page_size=a)
             elif op == "from_pandas":
@@ -86,6 +145,7 @@ def replay(chk, kind, cat, rkind, rcat_elems, rows0, hist, tmp, tag):
                     obj.to_parquet(path)
                     obj = read_parquet_dask(path)
                     form = "dataset"
+                    last_path = path
             elif op == "pack_partitions_to_parquet":
                 path = os.path.join(tmp, f"{tag}_{step}.parq")
                 try:
@@ -94,6 +154,7 @@ def replay(chk, kind, cat, rkind, rcat_elems, rows0, hist, tmp, tag):
                     chk.notes["world_pack_to_parquet_raised"] = chk.notes.get("world_pack_to_parquet_raised", 0) + 1
                     return nobs
                 form = "dataset"
+                last_path = path
             elif op == "ids":
                 got = set(int(i) for i in (obj["id"].compute() if form != "pandas" else obj["id"]))
                 nobs += 1
@@ -164,6 +225,7 @@ def stage(chk, quick, seed):
     tmp = tempfile.mkdtemp(prefix="world-", dir=os.environ.get("TMPDIR") or "/var/tmp")
     total = 0
     nobs = 0
+    optally = {}
     try:
         with dask.config.set(scheduler="synchronous"):
             for ci, (kind, cat, rkind, rcat) in enumerate(CONFIGS[:2] if quick else CONFIGS):
@@ -171,12 +233,15 @@ def stage(chk, quick, seed):
                 chk.add_tlc(r)
                 for bi, (rows0, hist, last) in enumerate(behaviours):
                     total += 1
+                    for h in hist:
+                        optally[h["op"]] = optally.get(h["op"], 0) + 1
                     nobs += replay(chk, kind, cats[cat], rkind, cats[rcat], rows0, hist, tmp, f"w{ci}_{bi}")
                     if bi == 3 and ci == 0:
                         chk.sample({"world_history": [dict(op=h["op"], a=repr(h["a"]), val=repr(h["val"])) for h in hist]})
     finally:
         shutil.rmtree(tmp, ignore_errors=True)
     chk.notes["world_behaviours"] = total
+    chk.notes["world_steps_per_action"] = dict(sorted(optally.items()))
     chk.notes["world_observations"] = nobs
     chk.traces += total
     return total
